@@ -64,8 +64,13 @@ func CheckC11(e *fw.Env, l *Lab) {
 		withPT := t.Spec != nil && e.R.Intn(4) == 0
 		if withPT {
 			t.Spec.Passthrough = make([]byte, 1+e.R.Intn(64))
-			e.R.Read(t.Spec.Passthrough)
 			hs.FeeCls += "+pt"
+			if e.R.Intn(3) == 0 {
+				// larger than the limit: refused whatever the orbiter account holds
+				t.Spec.Passthrough = make([]byte, 65+e.R.Intn(100))
+				hs.FeeCls += "-oversized"
+			}
+			e.R.Read(t.Spec.Passthrough)
 		}
 		// deposits
 		deps := map[string]*big.Int{}
@@ -95,6 +100,16 @@ func CheckC11(e *fw.Env, l *Lab) {
 		if len(deps) == 0 {
 			deps[world.USDN] = big.NewInt(5)
 		}
+		// dust beyond 64 bits: only ubig has the supply; the coins first leave the escrow through
+		// an ordinary orbiter transfer to carol (in both runs), who then deposits them (second run)
+		var pre *run.Transfer
+		if t.Denom == world.BIG && e.R.Intn(2) == 0 {
+			h := pow2(uint(63 + e.R.Intn(150)))
+			pre = &run.Transfer{Pair: w.Channels[0], Denom: world.BIG, Amount: h.String(), Sender: w.K("bob").String(), Receiver: OrbiterReceiver(),
+				Spec: &spec.Spec{Route: spec.Route{Kind: "internal", To: w.K("carol").String()}}, Seq: uint64(1<<43) + uint64(i)}
+			deps[world.BIG] = h
+			hs.FeeCls += "+huge-dust"
+		}
 		depStr := map[string]string{}
 		for d, v := range deps {
 			depStr[d] = v.String()
@@ -108,6 +123,15 @@ func CheckC11(e *fw.Env, l *Lab) {
 			UpdateParams(w, ctxB, 64)
 		}
 		okDeps := true
+		if pre != nil {
+			pa, pb := run.Do(w, ctxA, *pre, run.Mode{Kind: "H"}), run.Do(w, ctxB, *pre, run.Mode{Kind: "H"})
+			if !pa.Success() || !pb.Success() {
+				delete(deps, world.BIG)
+				if len(deps) == 0 {
+					deps[world.USDN] = big.NewInt(5)
+				}
+			}
+		}
 		for d, v := range deps {
 			from := w.K("carol")
 			if d == world.STAKE {
